@@ -7,6 +7,7 @@ import (
 	"strings"
 	"sync"
 
+	"github.com/goghcrow/yae"
 	"github.com/goghcrow/yae/compiler"
 	"github.com/goghcrow/yae/val"
 
@@ -92,9 +93,68 @@ func runBackends(c *ProgCase, r *CaseRun, bes []run.Backend) {
 			o2 := &run.Outcome{Be: be}
 			en.Invoke(callable, c.Vals, o2)
 			br.Again = againDiff(br, o2, r.RefType)
+			if br.Again == "" && traceHasTr(o.Trace) {
+				br.Again = reentrantDiff(en, callable, c, br, r.RefType)
+			}
 		}
 		r.Runs = append(r.Runs, br)
 	}
+}
+
+func traceHasTr(tr []string) bool {
+	for _, l := range tr {
+		if strings.HasPrefix(l, "tr(") {
+			return true
+		}
+	}
+	return false
+}
+
+// reentrantDiff: a third invocation during which the first call of the host function tr
+// invokes the same Callable once more, to completion, before it returns: the nested
+// invocation and the interrupted one must both end like the first invocation (values and
+// failure; the interleaved host-function traces are not compared).
+func reentrantDiff(en *run.Engine, callable yae.Callable, c *ProgCase, first *BackendRun, ty *m.Type) string {
+	depth := 0
+	var inner *run.Outcome
+	en.Tr.Hook = func() {
+		if depth > 0 || inner != nil {
+			return
+		}
+		depth++
+		defer func() { depth-- }()
+		in := &run.Outcome{Be: first.O.Be}
+		ve := en.ValEnv(c.Vals)
+		in.RunPan = run.Guard(func() { in.Val, in.RunErr = callable(ve) })
+		inner = in
+	}
+	outer := &run.Outcome{Be: first.O.Be}
+	ve := en.ValEnv(c.Vals)
+	outer.RunPan = run.Guard(func() { outer.Val, outer.RunErr = callable(ve) })
+	en.Tr.Hook = nil
+	cmp := func(what string, o *run.Outcome) string {
+		if o == nil {
+			return ""
+		}
+		if o.Failed() != first.O.Failed() {
+			return fmt.Sprintf("first invocation: %s; %s: %s", describeOutcome(first), what, describeOutcome(&BackendRun{O: o}))
+		}
+		if o.Failed() {
+			return ""
+		}
+		v, probs := run.FromYaeVal(o.Val, ty)
+		if (len(first.Probs) == 0) != (len(probs) == 0) {
+			return fmt.Sprintf("%s yields a differently formed value: first %v; now %v", what, first.Probs, probs)
+		}
+		if first.Val != nil && v != nil && !m.Identical(first.Val, v) {
+			return fmt.Sprintf("first invocation yields %s, %s yields %s", first.Val.Render(), what, v.Render())
+		}
+		return ""
+	}
+	if d := cmp("an invocation of the same Callable nested inside its own evaluation (from a host function)", inner); d != "" {
+		return d
+	}
+	return cmp("the invocation that was interrupted by a nested invocation of the same Callable", outer)
 }
 
 // againDiff: the second invocation against the first - failed or not, the value read by the
